@@ -47,7 +47,7 @@ RESERVED = {"expires", "path", "comment", "domain", "max-age", "secure", "httpon
 def shards(tier, seed):
     if tier == "quick":
         return [{"n": 1100} for _ in range(16)]
-    return [{"n": 9000} for _ in range(32)]
+    return [{"n": 22000} for _ in range(32)]
 
 
 # ------------------------------------------------------------------ application
@@ -325,7 +325,7 @@ def _falsy_shape(kw, problems):
 
 def _unvalidated_kwargs_text(kw):
     named = ("domain", "path", "samesite", "httponly", "secure", "expires", "expires_days", "max_age", "version")
-    return any(isinstance(v, str) and any(ch == ";" or ord(ch) < 0x20 or ord(ch) == 0x7F for ch in v)
+    return any(isinstance(v, str) and any(ch == ";" or ord(ch) <= 0x20 or ord(ch) == 0x7F for ch in v)
                for k, v in kw.items() if k not in named or k == "version")
 
 
@@ -459,7 +459,7 @@ async def acase(case, ctx, sess):
                     tags.append(kind_ + "-" + "+".join(sorted(set(n if n in RESERVED else "other" for n in names))))
             tags += _falsy_shape(kw, problems)
             if src == "kwargs" and _unvalidated_kwargs_text(kw):
-                tags = ["separator-or-control-in-kwargs-attribute"]
+                tags = ["separator-space-or-control-in-kwargs-attribute"]
             ctx.violation(f"attrs/{src}/" + "/".join(tags),
                           "attributes of the emitted Set-Cookie line differ from the attributes requested in the call",
                           dict(wit, cookie=nm, expected=exp, got=by_name[nm][0][1], problems=problems))
